@@ -2,7 +2,7 @@
    EncodeProofs.v (all commands but SGR) and EncodeSgrProofs.v (Face, FaceModify). *)
 From Coq Require Import List NArith ZArith Bool Lia ZifyBool ZifyN.
 From SNT Require Import Base.Outcome Encoder.Decimal Encoder.DecimalProofs Encoder.Utf8
-  Encoder.VT Encoder.VTProofs Encoder.Encode Encoder.EncodeStream Encoder.Denote Encoder.EncodeProofs Encoder.EncodeSgrProofs
+  Encoder.VT Encoder.VTProofs Encoder.Encode Encoder.EncodeOrig Encoder.EncodeStream Encoder.Denote Encoder.EncodeProofs Encoder.EncodeSgrProofs
   Encoder.Color256 Encoder.Color256Proofs Encoder.EncodeC20 Encoder.Term Gen.TabEncoder.
 Import ListNotations.
 Local Open Scope N_scope.
@@ -86,9 +86,7 @@ Section Meaning.
   Proof.
     intros Hok Hraw. destruct c; try discriminate Hraw; cbn [cmd_ok] in Hok.
     - (* Char *)
-      eexists. split; [reflexivity|]. cbn [Denote.denote].
-      apply andb_prop in Hok. destruct Hok as [Hs Hi].
-      apply (char_good c Hs). destruct (char_introducer c); [discriminate Hi | reflexivity].
+      eexists. split; [reflexivity|]. cbn [Denote.denote]. apply (char_good c Hok).
     - (* Face *)
       eexists. split; [reflexivity|]. bsplit Hok. apply face_good; assumption.
     - (* FaceModify *)
@@ -264,10 +262,10 @@ Proof.
 Qed.
 
 
-(* ---------- KNOWN FINDING: characters that open a control sequence ---------- *)
-Lemma char_introducer_refuted pal256 gray4 cp c :
+(* ---------- before crate fix 73d8d1c: characters that open a control sequence ---------- *)
+Lemma char_introducer_refuted_before_fix c :
   char_introducer c = true ->
-  exists bs, encode pal256 gray4 cp (Char c) = Ok bs /\ vt_complete bs = false.
+  exists bs, EncodeOrig.encode_orig (Char c) = Ok bs /\ vt_complete bs = false.
 Proof.
   unfold char_introducer. intros H. eexists. split; [reflexivity|].
   repeat (apply orb_prop in H; destruct H as [H|H]);
